@@ -156,8 +156,29 @@ def _boundary_programs(rng, cs):
     return ps
 
 
+def _clean_stale():
+    """scratch directories of harness processes that were killed by a sanitizer report"""
+    base = os.path.join(core.CACHE, "c20")
+    if not os.path.isdir(base):
+        return
+    for d in os.listdir(base):
+        m = re.match(r"c20_(\d+)$", d)
+        if m and not os.path.exists("/proc/" + m.group(1)):
+            p = os.path.join(base, d)
+            for f in os.listdir(p):
+                try:
+                    os.remove(os.path.join(p, f))
+                except OSError:
+                    pass
+            try:
+                os.rmdir(p)
+            except OSError:
+                pass
+
+
 def gen_cases(rng, tier, h):
     """trace cases first, image cases last: a sanitizer abort in an image case then re-runs only cheap cases"""
+    _clean_stale()
     cases = []
     quick = tier == "quick"
     # ---- the empty log, alone in its case (every `save` runs in its own process in the harness)
